@@ -100,6 +100,19 @@ impl Channel {
         })
     }
 
+    /// Undo the bookkeeping of a `send` whose message was handed back to the
+    /// sender because the receiver is gone.
+    pub(crate) fn send_failed(&self) {
+        super::execution(|execution| {
+            let state = self.state.get_mut(&mut execution.objects);
+            state.msg_cnt = state
+                .msg_cnt
+                .checked_sub(1)
+                .expect("send_failed without send");
+            state.receiver_synchronize.pop_back();
+        })
+    }
+
     pub(crate) fn recv(&self, location: Location) {
         self.state
             .branch_disable(Action::MsgRecv, self.is_empty(), location);
